@@ -39,6 +39,11 @@ def check(ctx):
 
     check_initial_value(ctx, "C01-h", "C01-h", classes=("FlowProperties",))
     check_interp_options(ctx, "C01-i", ["bluebonnet.flow.flowproperties"], 5)
+    # C01-j: "up to rounding-level error of the linear solve": the solve is direct, or iterative with a checked flag and
+    # a tight relative tolerance (shared with C04-e)
+    from .c04 import check_solver_sites
+
+    check_solver_sites(ctx, "C01-j")
     ctx.floor("C01", len(ctx.obligs), 12, "maximum-principle obligations")
 
 
@@ -102,7 +107,25 @@ def _unsolved_step(ctx, it, f, cls, p):
     """a partition of the time loop that stores a level without solving the step's system: admissible only under an
     exact test that the step's increment is zero (backward Euler with dt == 0 is the identity)"""
     tag = ", ".join(("" if c else "not ") + d[:60] for _k, c, d in p.decisions if not d.startswith("hasattr"))
-    exact = any(k[0] == "eq" and c and _zero_increment(nf.unkey(k[1])) for k, c, _d in p.decisions if isinstance(k, tuple) and len(k) == 2 and k[0] == "eq")
+    exact = False
+    for k, c, _d in p.decisions:
+        if isinstance(k, tuple) and len(k) == 2 and k[0] == "eq" and c:
+            poly = nf.unkey(k[1])
+            # time[i+1] - time[i] == 0, or a positive multiple of it (the mesh ratio dt / dx^2)
+            times = [a for a in nf.atoms(poly) if a[0] == "fn" and a[1] == "[]" and nf.unkey(a[2][0]) == nf.sym("time")]
+            if len(set(times)) == 2:
+                t1, t2 = sorted(set(times), key=repr)
+                quotient = nf.div(poly, nf.sub(nf.atom_poly(t1), nf.atom_poly(t2)))
+                if _zero_increment(poly) or (not nf.depends(quotient, "time") and not any(a[0] == "fn" and a[1] == "[]" and nf.unkey(a[2][0]) == nf.sym("time") for a in nf.atoms(quotient))):
+                    exact = True
+    # ... and the skipped level must be written: level i+1 := level i of the same array
+    copied = False
+    for e in p.events:
+        if e.kind == "store_sub" and isinstance(e.data["base"], Arr2) and isinstance(e.data["index"], Num) and e.data["index"].nf == nf.add(nf.sym("i"), nf.ONE):
+            v = e.data["value"]
+            if isinstance(v, Vec) and not v.over and nf.equal(v.gen, nf.fn("[]", nf.sym(e.data["base"].name), nf.sym("i"), nf.sym("@J"))):
+                copied = True
+    exact = exact and copied
     key = (cls, tag)
     seen = ctx.__dict__.setdefault("_unsolved_seen", set())
     if key in seen:
@@ -110,7 +133,7 @@ def _unsolved_step(ctx, it, f, cls, p):
     seen.add(key)
     ctx.check(
         exact, f"{ctx.prop}-s", RES + f"{cls}.simulate:step without a solve [{tag}]", f.where(),
-        "every time level is the solution of that step's backward-Euler system; a step is copied without a solve only under an exact test that its increment is zero (a tolerance test such as np.isclose depends on the absolute time and drops small steps)",
+        "every time level is the solution of that step's backward-Euler system; a level is *copied* from the previous one without a solve only under an exact test that the step's increment is zero (a tolerance test such as np.isclose depends on the absolute time and drops small steps; a skipped level that is not written keeps uninitialised memory)",
         signature="step not solved", decisions=[d for _k, _c, d in p.decisions],
     )
 
